@@ -237,7 +237,10 @@ class SemWalker:
             self.walk(f.get("value"), sub("value"))
             tgt = f.get("target")
             if isinstance(tgt, TNode) and tgt.kind == "Name":
+                ev_n = len(self.events)
                 self.name_event(tgt, st.copy(role="NamedExpr.target"), store=True)
+                for e in self.events[ev_n:]:
+                    e.extra["namedexpr"] = t
             else:
                 self.emit("bad-walrus-target", self.describe(tgt), t, st)
             return
